@@ -25,6 +25,11 @@ CORPUS = [
     ('set "Strip" zone 1 3', ['WAIT', 'MOVEQ', 'MOVEQ', 'MOVEQ', 'MOVEQ', 'COLOR']),
     ('get "Top"', ['MOVEQ', 'MOVE', 'GET_COLOR']),
     ('pause', ['PAUSE']),
+    # two matrix operands joined by `and`: each is NAME, its matrix spec (MATRIX, stage, END), the operand kind, the action
+    ('set "Candle" row 1 and "Tube" row 2', ['WAIT'] + 2 * (['MOVEQ', 'MATRIX'] + 5 * ['MOVEQ'] + ['COLOR', 'END', 'MOVEQ', 'COLOR'])),
+    ('set "Candle" row 1 2 column 3 4 and "Top"', ['WAIT', 'MOVEQ', 'MATRIX'] + 5 * ['MOVEQ'] + ['COLOR', 'END', 'MOVEQ', 'COLOR', 'MOVEQ', 'MOVEQ', 'COLOR']),
+    # a `units` after a block that ends in the same `units` is its own statement (the block may not have been executed)
+    ('if {hue > 0} begin saturation 10 units raw end units raw', ['PUSH', 'PUSHQ', 'OP', 'POP', 'JUMP', 'MOVEQ', 'MOVEQ', 'MOVEQ']),
 ]
 # (text, [op code names that must occur in this order, other instructions may lie between])
 CORPUS_SUB = [
@@ -63,7 +68,7 @@ from pyvc import spec as _spec
 _spec.EXTRA_INSTALLERS.append(_install)
 
 for text, ops_, exact in [(t, o, True) for t, o in CORPUS] + [(t, o, False) for t, o in CORPUS_SUB]:
-    c = contract(P, 'Parser.parse', serves=['C06', 'C01', 'C16', 'C05', 'C02'], name='Parser.parse[corpus: %s]' % text)
+    c = contract(P, 'Parser.parse', serves=['C06', 'C01', 'C16', 'C05', 'C02', 'C14', 'C15'], name='Parser.parse[corpus: %s]' % text)
     def _setup(b, case, text=text):
         pr = b.new(('bardolph.parser.parse', 'Parser'))
         rt = b.I.load_module('bardolph.runtime.i_runtime').ns['Runtime']
